@@ -110,6 +110,16 @@ INVALIDATIONS = ["unknown_field", "unknown_key", "bad_note_name", "unknown_actio
                  "note_oor", "cc_oor", "offset_oor", "velocity_oor", "channel_oor", "default_mapping_missing"]
 
 
+_cycle = {}
+
+
+def pick(key, lst):
+    """Cycle through a list of bad values (instead of sampling it): every listed value occurs in every run."""
+    i = _cycle.get(key, 0)
+    _cycle[key] = i + 1
+    return lst[i % len(lst)]
+
+
 def invalidate(d0, kind, rng):
     """One single-field invalidation; returns None when the description has no place for it."""
     d = copy.deepcopy(d0)
@@ -139,7 +149,7 @@ def invalidate(d0, kind, rng):
         if not places:
             return None
         pl = rng.choice(places)
-        bad = rng.choice(["KEY_NOPE", "ABS_Q", "xZZ", "", "key_a", "x12345", "xx1e", "xxx0", "x", "X1e", "x-1", "x 1e", "0x1e"])
+        bad = pick("key", ["KEY_NOPE", "ABS_Q", "xZZ", "", "key_a", "x12345", "xx1e", "xxx0", "x", "X1e", "x-1", "x 1e", "0x1e"])
         if pl == "keys":
             rng.choice(allkeys).update(name=bad, code=-1)
         elif pl == "actions":
@@ -154,12 +164,13 @@ def invalidate(d0, kind, rng):
     elif kind == "bad_note_name":
         if not allkeys:
             return None
-        rng.choice(allkeys).update(text=rng.choice(["H3", "E#3", "B#0", "C9", "G#8", "C-3", "c", "C#", "C 3", "3C", "Do3", "c3 ", ""]), val=-1)
+        rng.choice(allkeys).update(text=pick("note", ["H3", "E#3", "B#0", "C9", "G#8", "C-3", "c", "C#", "C 3", "3C", "Do3", "c3 ", "",
+                                                        "c20", "d#21", "g29", "c-23", "a63", "C08", "c-02", "C254", "c10", "Cb3", "c##3", "c3#", "#c3"]), val=-1)
     elif kind == "unknown_action":
         places = (["actions"] if d["actions"] else []) + (["analog"] if [a for a in allan if a["type"] == "action"] else [])
         if not places:
             return None
-        bad = rng.choice(["octave", "Panic", "", "learn", "octave_up "])
+        bad = pick("action", ["octave", "Panic", "", "learn", "octave_up ", " panic", "octave-up", "octaveup", "OCTAVE_UP"])
         if rng.choice(places) == "actions":
             rng.choice(d["actions"])["a"] = bad
         else:
@@ -171,14 +182,14 @@ def invalidate(d0, kind, rng):
     elif kind == "unknown_type":
         if not allan:
             return None
-        rng.choice(allan)["type"] = rng.choice(["CC", "pitchbend", "", "note", "button"])
+        rng.choice(allan)["type"] = pick("type", ["CC", "pitchbend", "", "note", "button", "cc ", "pitch-bend", "keys", "Key"])
     elif kind == "unknown_mode":
-        d["mode"] = rng.choice(["", "Off", "legato", "no-repeat"])
+        d["mode"] = pick("mode", ["", "Off", "legato", "no-repeat", "interupt", "interrupt ", "Interrupt", "norepeat", "x" * 40])
     elif kind == "note_oor":
         places = (["keys"] if allkeys else []) + (["analog"] if [a for a in allan if a["type"] == "key"] else [])
         if not places:
             return None
-        v = rng.choice([-1, 128, 255, 256, 1000])
+        v = pick("noteoor", [-1, 128, 255, 256, 1000, 129, 383, 65536 + 60])
         if rng.choice(places) == "keys":
             rng.choice(allkeys).update(text=str(v), val=v)
         else:
@@ -192,7 +203,7 @@ def invalidate(d0, kind, rng):
         if not c:
             return None
         a = rng.choice(c)
-        v = rng.choice([-1, 128, 255, 256])
+        v = pick("ccoor", [-1, 128, 255, 256, 257, 120 + 256, 65536 + 5])
         if a["hasccn"] and rng.random() < 0.5:
             a["ccn"] = v
         else:
@@ -202,7 +213,7 @@ def invalidate(d0, kind, rng):
         places = (["keys"] if allkeys else []) + (["analog"] if c else [])
         if not places:
             return None
-        v = rng.choice([-1, 16, 99, 255, 256])
+        v = pick("offoor", [-1, 16, 99, 255, 256, 17, 257, 65536 + 1])
         if rng.choice(places) == "keys":
             rng.choice(allkeys).update(off=v, hasoff=True)
         else:
@@ -212,11 +223,11 @@ def invalidate(d0, kind, rng):
             else:
                 a.update(off=v, hasoff=True)
     elif kind == "velocity_oor":
-        d["defaults"]["velocity"] = rng.choice([-1, 128, 255, 1000])
+        d["defaults"]["velocity"] = pick("veloor", [-1, 128, 255, 1000, 256, 256 + 64, 65536 + 64])
     elif kind == "channel_oor":
-        d["defaults"]["channel"] = rng.choice([0, 17, -1, 255, 256])
+        d["defaults"]["channel"] = pick("chanoor", [0, 17, -1, 255, 256, 257, 272, 65536 + 1])
     elif kind == "default_mapping_missing":
-        d["defaults"]["mapping"] = rng.choice(["", "Nope", d["maps"][0]["name"].lower()])
+        d["defaults"]["mapping"] = pick("mapmiss", ["", "Nope", d["maps"][0]["name"].lower(), d["maps"][0]["name"] + " ", " " + d["maps"][-1]["name"]])
     return d
 
 
@@ -348,6 +359,7 @@ def render(d, spelling="inline"):
 def c10_cases(seed, tier):
     """Valid descriptions in three spellings and every single-field invalidation of them."""
     rng = random.Random(seed * 613 + 11)
+    _cycle.clear()
     n_valid = 60 if tier == "quick" else 600
     cases = []
     for i in range(n_valid):
